@@ -103,21 +103,21 @@ def validate(chk, cases, name="trace_amplitude"):
 UNIVERSE_CFG = """SPECIFICATION Spec
 CONSTANTS
  MaxSpin2 = {maxspin2}
- LeafIds = {{0, 1, 2}}
+ LeafIds = {leafs}
  EtaValues <- {etas}
 {invariants}CHECK_DEADLOCK FALSE
 """
 UNIVERSE_INVARIANTS = "INVARIANT KeysSummed\nINVARIANT ChainsPartition\nINVARIANT PartnerSymmetric\nINVARIANT SignLawSatisfiable\nINVARIANT DOnShell\nINVARIANT NonEmpty\n"
 
 
-def universe_cases(chk, *, stride, offset, which, maxspin2=2, etas="EtaGiven", name="universe"):
+def universe_cases(chk, *, stride, offset, which, maxspin2=2, etas="EtaGiven", name="universe", nfs=3):
     """Every `stride`-th reaction (from `offset`) of the universe TLC enumerates for spec/Amplitude_MC.tla, formulated with the real
     builder: -> cases in the format of build_cases.  stride = 1: exhaustive within the constants."""
     import ampform
 
     from . import tlc
 
-    res = tlc.run("Amplitude_MC", UNIVERSE_CFG.format(maxspin2=maxspin2, etas=etas, invariants="INVARIANT EmitDescriptor\n"), workers=1, timeout=1800)
+    res = tlc.run("Amplitude_MC", UNIVERSE_CFG.format(maxspin2=maxspin2, etas=etas, leafs="{" + ", ".join(map(str, range(nfs))) + "}", invariants="INVARIANT EmitDescriptor\n"), workers=1, timeout=1800)
     if not res.ok:
         raise Machinery(f"Amplitude_MC: {res.violated}")
     descs = [p[1] for p in res.prints if isinstance(p, tuple) and p and p[0] == "DESC"]
@@ -131,7 +131,7 @@ def universe_cases(chk, *, stride, offset, which, maxspin2=2, etas="EtaGiven", n
         spec = U.descriptor_spec(d)
         if spec is None:
             continue
-        label = f"universe:{k * stride + offset}"
+        label = f"universe{nfs}:{k * stride + offset}"
         reaction = ampl.make_reaction(spec)
         try:
             model = ampform.get_builder(reaction).formulate()
@@ -139,12 +139,12 @@ def universe_cases(chk, *, stride, offset, which, maxspin2=2, etas="EtaGiven", n
             out.append((label, reaction, {}, None, {"error": f"{type(ex).__name__}: {ex}"}))
             continue
         try:
-            rec = U.model_record(1_000_000 + len(out), reaction, model, do_formula="formula" in which, do_parity="parity" in which, do_closure="closure" in which)
+            rec = U.model_record(1_000_000 * nfs + len(out), reaction, model, do_formula="formula" in which, do_parity="parity" in which, do_closure="closure" in which)
         except ampl.AmpProjectionError as ex:
             chk.spec_drift(f"amplitude term shape not understood ({label}): {ex}")
             continue
         rec["label"] = label
         rec["cfg"] = {}
         out.append((label, reaction, {}, model, rec))
-    chk.part(name, descriptors_enumerated_by_TLC=len(descs), formulated=len(out), stride=stride, offset=offset, constants=f"3 final states, spins <= {maxspin2}/2, eta in {etas}")
+    chk.part(name, descriptors_enumerated_by_TLC=len(descs), formulated=len(out), stride=stride, offset=offset, constants=f"{nfs} final states, spins <= {maxspin2}/2, eta in {etas}")
     return out
